@@ -229,6 +229,12 @@ def r7_enumerate(src):
     return _ENUM_RE.sub(rep, src), n
 
 
+def r8_closure_wildcard(src):
+    """R8 (generic): a closure whose single parameter is the wildcard pattern `|_|` gets a named, unused parameter `|_w|` (Verus accepts
+    only variables as closure parameters). Same meaning; runs after a unit's own rewrites (their `map_err(|_| ..)` schemas come first)."""
+    return re.subn(r"\|\s*_\s*\|", "|_w|", src)
+
+
 def r8_unwrap_or_else(src):
     """R8 (closure schema, generic): `RECV.unwrap_or_else(|| BODY)` with a parameterless closure is `Option::unwrap_or_else`, whose
     documented meaning is its defining match: `(match RECV { Some(__v) => __v, None => { BODY } })`. RECV is the postfix chain in
